@@ -74,7 +74,7 @@ func genChain(t *rapid.T) ChainCase {
 	var c ChainCase
 	c.Tag = rapid.SampledFrom([]string{"repo:latest", "library/ubuntu:20.04", "a/b/c:v1"}).Draw(t, "tag")
 	n := rapid.IntRange(1, 3).Draw(t, "ndeps")
-	lost := rapid.IntRange(0, 11).Draw(t, "lost") == 0
+	lost := rapid.IntRange(0, 19).Draw(t, "lost") == 0
 	for i := 0; i < n; i++ {
 		d := ChainDep{Size: rapid.SampledFrom([]int{1, 10, 100, 5000}).Draw(t, "size"), Where: rapid.SampledFrom([]int{0, 0, 1}).Draw(t, "where")}
 		if lost && i == n-1 {
@@ -110,11 +110,19 @@ func (nopManager) Find(q interface{}) ([]persistedretry.Task, error) { return ni
 type memBackend struct {
 	mu    sync.Mutex
 	blobs map[string][]byte
+	asked map[string]bool // names the origin has looked up (it does so before it starts a fetch)
+}
+
+func (m *memBackend) wasAsked(name string) bool {
+	m.mu.Lock()
+	defer m.mu.Unlock()
+	return m.asked[name]
 }
 
 func (m *memBackend) Stat(namespace, name string) (*core.BlobInfo, error) {
 	m.mu.Lock()
 	defer m.mu.Unlock()
+	m.asked[name] = true
 	b, ok := m.blobs[name]
 	if !ok {
 		return nil, backenderrors.ErrBlobNotFound
@@ -193,7 +201,7 @@ func newOriginNode(clusters blobclient.ClusterProvider, wrap func(http.Handler) 
 	if err != nil {
 		return nil, err
 	}
-	o := &originNode{dir: dir, addr: fakenet.NewAddr(), mem: &memBackend{blobs: map[string][]byte{}}}
+	o := &originNode{dir: dir, addr: fakenet.NewAddr(), mem: &memBackend{blobs: map[string][]byte{}, asked: map[string]bool{}}}
 	for _, d := range []string{"upload", "cache"} {
 		if err := os.MkdirAll(filepath.Join(dir, d), 0775); err != nil {
 			o.close()
@@ -378,7 +386,8 @@ func runChain(c ChainCase) pbt.Verdict {
 		// it was asked for. Wait for that condition instead of a time span.
 		deadline := time.Now().Add(20 * time.Second)
 		for _, d := range fetch {
-			for !local.has(d) {
+			// only what the local origin has been asked to fetch so far
+			for local.mem.wasAsked(d.Hex()) && !local.has(d) {
 				if time.Now().After(deadline) {
 					return pbt.Verdict{Discard: true, Classes: []string{"local-fetch-not-finished-in-20s"}}
 				}
